@@ -49,6 +49,8 @@ def check_result(case):
             nstmt = len(lr.statements())
     except SQLLineageException as e:
         return None, {"raises": type(e).__name__}
+    except Exception as e:  # noqa  an escaping internal error (e.g. K-rename-multi NetworkXError) is C10's / C03's matter: no result to check here
+        return None, {"raises": "escape:" + type(e).__name__}
     cedges = {(e["data"]["source"], e["data"]["target"]) for e in col if "source" in e["data"]}
     incoming = {b for a, b in cedges}
     tedges = {(e["data"]["source"], e["data"]["target"]) for e in tab if "source" in e["data"]}
